@@ -168,37 +168,43 @@ def run_case(ctx, i, rng):
             ctx.count("transform_failed:%s:%s" % (transform, type(ex).__name__))
             return
         opts = {}
-        if rng.random() < 0.3:
+        if rng.random() < 0.5:
             opts["write_blackbox"] = rng.choice([True, False])
-        if rng.random() < 0.3:
+        if rng.random() < 0.5:
             opts["defparam"] = rng.choice([True, False])
         a = canon_verilog(n, ctx)
-        f = os.path.join(d, "out.v")
-        try:
-            sdn.compose(n, f, **opts)
-        except Exception as ex:  # noqa: BLE001
-            fr = probes.innermost_frame(ex) or ""
-            ctx.violation("composer-raised:%s:%s" % (type(ex).__name__, fr.split(":")[-1]), "%s at %s | %s transform=%s opts=%s" % (
-                str(ex)[:120], fr, what, transform, opts))
-            return
-        try:
-            n2 = sdn.parse(f)
-        except Exception as ex:  # noqa: BLE001
-            fr = probes.innermost_frame(ex) or ""
-            ctx.violation("written-text-rejected:%s:%s" % (type(ex).__name__, fr.split(":")[-1]), "%s at %s | %s transform=%s opts=%s" % (
-                str(ex)[:120], fr, what, transform, opts), {"written": open(f).read()[:5000]})
-            return
-        ctx.count("round_trips")
-        ctx.count("transform:" + transform)
-        b = canon_verilog(n2)
-        if opts.get("write_blackbox") is False:
-            # black boxes are deliberately not written: they come back as inferred primitives; compare the rest
-            pass
-        dd = diff_canon(a, b, relaxed_prims=not opts.get("write_blackbox", True))
-        if dd:
-            part = "bits" if " bits: " in dd else ("ports" if "ports" in dd else ("assigns" if "assigns" in dd else "other"))
-            ctx.violation("roundtrip-differs:%s:%s" % (part, transform), "%s | %s opts=%s" % (dd, what, opts), {"written": open(f).read()[:5000]})
-            return
+        optlist = [opts]
+        if any(v[1] for m in a.values() for v in m.get("insts", {}).values()):
+            # instances carry parameters: the same netlist is also written in the other parameter style
+            optlist.append(dict(opts, defparam=not opts.get("defparam", False)))
+            ctx.count("netlists_written_in_both_parameter_styles")
+        for opts in optlist:
+            f = os.path.join(d, "out.v")
+            try:
+                sdn.compose(n, f, **opts)
+            except Exception as ex:  # noqa: BLE001
+                fr = probes.innermost_frame(ex) or ""
+                ctx.violation("composer-raised:%s:%s" % (type(ex).__name__, fr.split(":")[-1]), "%s at %s | %s transform=%s opts=%s" % (
+                    str(ex)[:120], fr, what, transform, opts))
+                return
+            try:
+                n2 = sdn.parse(f)
+            except Exception as ex:  # noqa: BLE001
+                fr = probes.innermost_frame(ex) or ""
+                ctx.violation("written-text-rejected:%s:%s" % (type(ex).__name__, fr.split(":")[-1]), "%s at %s | %s transform=%s opts=%s" % (
+                    str(ex)[:120], fr, what, transform, opts), {"written": open(f).read()[:5000]})
+                return
+            ctx.count("round_trips")
+            ctx.count("transform:" + transform)
+            b = canon_verilog(n2)
+            if opts.get("write_blackbox") is False:
+                # black boxes are deliberately not written: they come back as inferred primitives; compare the rest
+                pass
+            dd = diff_canon(a, b, relaxed_prims=not opts.get("write_blackbox", True))
+            if dd:
+                part = "bits" if " bits: " in dd else ("ports" if "ports" in dd else ("assigns" if "assigns" in dd else "other"))
+                ctx.violation("roundtrip-differs:%s:%s" % (part, transform), "%s | %s opts=%s" % (dd, what, opts), {"written": open(f).read()[:5000]})
+                return
         rich = any((not m["primitive"]) and (m["assigns"] or any(k[0].startswith("\\<const") for k in m["bits"]) or
                                              any(len(v) >= 2 for v in m["bits"].values())) for m in a.values())
         ctx.fingerprint(repr(sorted((k, repr(v)) for k, v in a.items())), rich and sum(1 for m in a.values() if not m["primitive"]) >= 2)
